@@ -252,8 +252,8 @@ def regenerate():
     try:
         text = render()
     except (ExtractError, SyntaxError, OSError, AttributeError, KeyError, IndexError, TypeError) as e:
-        if os.path.exists(path):
-            os.remove(path)
+        # keep the previously generated file: the proof status is reported as broken by the caller, but the
+        # correspondence harness can still be built (against the last understood model) to search for a failing input
         return False, f"{type(e).__name__}: {e}"
     old = open(path).read() if os.path.exists(path) else None
     if old != text:
